@@ -313,6 +313,7 @@ func (e *Engine) cmdCheck(prop, tier, evid, known, replayDir string, replay bool
 		all = append(all, e.structuralObligations("isDuplicate")...)
 		// a record and its copy are duplicates only if the copy has every field
 		all = append(all, e.copyFieldObligations()...)
+		all = append(all, e.structuralObligations("copy")...)
 	case "C10":
 		// what is signed is a copy of the records: the copy must have every field (APL negation flag, option fields)
 		all = append(all, e.copyFieldObligations()...)
